@@ -149,7 +149,7 @@ func TestWorker(t *testing.T) {
 		res := dispatchRun(t, spec)
 		watchRun(-1)
 		n++
-		if n%50 == 1 && res.Machinery == "" {
+		if n%25 == 1 && res.Machinery == "" {
 			// continuous determinism guard
 			again := dispatchRun(t, spec)
 			if again.Hash != res.Hash {
